@@ -284,15 +284,154 @@ def constructor_cases(build):
     for prog, P, desc in element_exprs(build)[:40]: cases.append((f'{prog} valid', 'true', f'validity of {desc}'))
     return cases
 
+def sqrt_cases(build, obs=()):
+    from .sqrt import G_VAL, N2, MODD
+    cases = []
+    g = G_VAL
+    pts = []
+    for o in obs:
+        m = o.model or {}
+        if 'en' in m: pts.append((pow(g, int(m['en']), Q), pow(g, int(m['ed']), Q), f'solver model e_n={m["en"]} e_d={m["ed"]}'))
+    odd = pow(3, 1 << N2, Q)      # an element of odd order
+    for k in range(0, N2 + 1): pts.append((pow(g, 1 << k, Q) if k < N2 else 1, 1, f'root of unity of order 2^{N2 - k}'))
+    for k in range(0, N2, 4): pts.append((pow(g, (1 << k) - 1, Q), 1, f'2-primary exponent 2^{k}-1 (all-ones digits)'))
+    for e in (1, 3, 0xFF, 0xFF00, 0xFFFFFFFFFFF, (1 << N2) - 1, (1 << 46), (1 << 46) + 1, 0x7FFFFFFFFFFF, 0x555555555555, 0x2AAAAAAAAAAA):
+        pts.append((pow(g, e, Q) * odd % Q, 1, f'2-primary exponent {hex(e)} times an odd-order element'))
+        pts.append((1, pow(g, e, Q), f'denominator with 2-primary exponent {hex(e)}'))
+    for k in (0, 1, 2, 3, 5): pts.append((pow(spec.ZETA, k, Q), 1, f'zeta^{k}')); pts.append((pow(spec.ZETA, k, Q), 7, f'zeta^{k} / 7'))
+    for a, b in ((0, 0), (0, 5), (5, 0), (1, 1), (4, 1), (2, 1), (1, 2), (Q - 1, 1), (1, Q - 1), (Q - 1, Q - 1), (9, 4), (spec.ZETA, spec.ZETA)): pts.append((a, b, f'num={a} den={b}'))
+    for i in range(40):
+        a = pow(7, 1000 + i, Q); b = pow(11, 77 + i, Q); pts.append((a, b, 'pseudo-random pair'))
+    for a, b, d in pts: cases.append((f'q:{QH(a)} q:{QH(b)} sqrtcheck', 'ok', f'sqrt_ratio contract on {d}'))
+    if build == 'ark':
+        for F, f, p_ in (('Fq', 'q', Q), ('Fr', 'r', R), ('Fp', 'p', replay.PP)):
+            nb = 48 if F == 'Fp' else 32
+            for v in (0, 1, 4, 2, 3, 5, p_ - 1, 7, 10):
+                ls = 0 if v % p_ == 0 else (1 if pow(v, (p_ - 1) // 2, p_) == 1 else -1)
+                cases.append((f'{f}.push:{le(v, nb)} {f}.legendre', str(ls), f'{F}::legendre({v})'))
+                if ls >= 0: cases.append((f'{f}.push:{le(v, nb)} {f}.sqrt', 'some sq_ok=true', f'{F}::sqrt({v})'))
+                else: cases.append((f'{f}.push:{le(v, nb)} {f}.sqrt', 'none', f'{F}::sqrt({v})'))
+    return cases
+
+def roundtrip_cases(build):
+    cases = []
+    for prog, P, desc in element_exprs(build):
+        cases.append((f'{prog} enc', ref_enc_hex(P), f'encoding of {desc}'))
+        cases.append((f'{prog} valid', 'true', f'decode(encode(P)) == P for {desc}'))
+    if build == 'ark':
+        for k in (1, 3, 7, 22):
+            cases.append((f'B {K(k)} mul named:negate enc', enc_of_mul(R - k), f'encoding of negate([{k}]B)'))
+            cases.append((f'B {K(k)} mul named:negate valid', 'true', f'round trip of negate([{k}]B)'))
+    return cases + decode_cases(build) + funnel_cases(build)[:200]
+
+def field_cases(build):
+    from .poly import FIELDS
+    cases = []
+    special = lambda p_: [0, 1, 2, p_ - 1, p_ - 2, (p_ - 1) // 2, (p_ + 1) // 2, 2 ** 32 - 1, 2 ** 64 - 1, 2 ** 64, 2 ** 128 + 5, 2 ** 200 - 1, 0x1234567890abcdef1234567890abcdef]
+    for F, f in (('Fq', 'q'), ('Fr', 'r'), ('Fp', 'p')):
+        p_ = FIELDS[F]; nb = 48 if F == 'Fp' else 32
+        push = lambda v: f'{f}.push:{le(v % p_, nb)}'
+        out = lambda v: f'{f}:{le(v % p_, nb)}'
+        vals = special(p_)
+        for a in vals[:8]:
+            for b in vals[:8]:
+                cases.append((f'{push(a)} {push(b)} {f}.add', out(a + b), f'{F}: {a} + {b}')); cases.append((f'{push(a)} {push(b)} {f}.sub', out(a - b), f'{F}: {a} - {b}'))
+                cases.append((f'{push(a)} {push(b)} {f}.mul', out(a * b), f'{F}: {a} * {b}'))
+                if b % p_: cases.append((f'{push(a)} {push(b)} {f}.div', out(a * pow(b, -1, p_)), f'{F}: {a} / {b}'))
+            cases.append((f'{push(a)} {f}.neg', out(-a), f'{F}: -{a}')); cases.append((f'{push(a)} {f}.sq', out(a * a), f'{F}: {a}^2'))
+            cases.append((f'{push(a)} {f}.inv', 'none' if a % p_ == 0 else 'some ' + le(pow(a, -1, p_), nb), f'{F}: inverse of {a}'))
+        for xs in ([], [3], [2, 3], [2, 3, 5], [p_ - 1, 2, 7, 9]):
+            prog = ' '.join(push(x) for x in xs)
+            s_ = sum(xs); pr = 1
+            for x in xs: pr *= x
+            for nm, w in (('sum', s_), ('sum_ref', s_), ('prod', pr), ('prod_ref', pr)):
+                cases.append(((prog + ' ' if prog else '') + f'{f}.{nm}', out(w), f'{F}: {nm} of {xs}'))
+        # operator forms generated from the impl headers
+        from .curve import items_for
+        from . import mirsym
+        seen = set()
+        for k, it in sorted(items_for(build).items()):
+            if it.kind != 'fn' or not it.impl_at or it.impl_at[0] != f'src/fields/{F.lower()}/ops.rs': continue
+            tr, targs, selfty = mirsym.Interp._hdr_parse(it.impl_header())
+            if tr not in ('Add', 'Sub', 'Mul', 'Div', 'Neg', 'AddAssign', 'SubAssign', 'MulAssign', 'DivAssign'): continue
+            fid = f'{it.impl_at[0]}:{it.impl_at[1]}'
+            if fid in seen: continue
+            seen.add(fid)
+            for a, b in ((5, 7), (p_ - 1, 2), (0, 3)):
+                if tr == 'Neg': cases.append((f'{push(a)} {f}.form:{fid}', out(-a), f'`{it.impl_header()}` on {a}')); continue
+                w = {'Add': a + b, 'Sub': a - b, 'Mul': a * b, 'Div': a * pow(b, -1, p_)}[tr.replace('Assign', '')]
+                cases.append((f'{push(a)} {push(b)} {f}.form:{fid}', out(w), f'`{it.impl_header()}` on {a}, {b}'))
+    for base in (2, 3, Q - 1):
+        for limbs in ([], [0], [5], [0, 1], [3, 0, 1], [0, 0, 1], [5, 0, 7, 0], [2 ** 64 - 1, 1], [1, 2, 3, 4, 5]):
+            e = sum(x << (64 * i) for i, x in enumerate(limbs))
+            hx = b''.join(x.to_bytes(8, 'little') for x in limbs).hex()
+            if limbs: cases.append((f'q:{QH(base)} fpower:{hx}', 'q:' + le(pow(base, e, Q)), f'Fq::power({base}, {limbs})'))
+    for a, b, c in ((5, 7, 0), (5, 7, 1), (Q - 1, 0, 0), (Q - 1, 0, 1)):
+        cases.append((f'q:{QH(a)} q:{QH(b)} fsel:{c}', 'q:' + le(b if c else a), f'conditional_select({a}, {b}, {c})'))
+    for a, b in ((5, 5), (5, 7), (0, pow(2, -128, Q)), (0, 0), (Q - 1, Q - 1), (1, 1 + pow(2, -128, Q) * 3 % Q)):
+        cases.append((f'q:{QH(a)} q:{QH(b)} fcteq', str(a % Q == b % Q).lower(), f'ct_eq({a}, {b})'))
+        cases.append((f'q:{QH(a)} q:{QH(b)} feq', str(a % Q == b % Q).lower(), f'{a} == {b}'))
+    return cases
+
+def conversion_cases(build):
+    from .poly import FIELDS
+    cases = []
+    import hashlib
+    for L in list(range(0, 201)):
+        data = (hashlib.sha256(str(L).encode()).digest() * 8)[:L]
+        if L in (32, 48): data = b'\xff' * L
+        v = int.from_bytes(data, 'little')
+        cases.append((f'modorder:{data.hex()}', ' '.join(le(v % FIELDS[F], 48 if F == 'Fp' else 32) for F in ('Fq', 'Fr', 'Fp')), f'from_le_bytes_mod_order on {L} bytes'))
+        if build == 'ark':
+            vb = int.from_bytes(data, 'big')
+            for F, f in (('Fq', 'q'), ('Fr', 'r'), ('Fp', 'p')):
+                nb = 48 if F == 'Fp' else 32
+                cases.append((f'{f}.be_mod_order:{data.hex()}', f'{f}:{le(vb % FIELDS[F], nb)}', f'{F}::from_be_bytes_mod_order on {L} bytes'))
+                if L % 7 == 0: cases.append((f'{f}.le_mod_order_trait:{data.hex()}', f'{f}:{le(v % FIELDS[F], nb)}', f'PrimeField::from_le_bytes_mod_order for {F} on {L} bytes'))
+    for F, f in (('Fq', 'q'), ('Fr', 'r'), ('Fp', 'p')):
+        p_ = FIELDS[F]; nb = 48 if F == 'Fp' else 32
+        for v in (0, 1, p_ - 1, p_, p_ + 1, 2 * p_ - 1, 2 ** (8 * nb) - 1, 2 ** (p_.bit_length()), 2 ** (p_.bit_length() - 1), p_ - 2 ** 64, p_ + 2 ** 64, (0x12ab655e9a2ca556 << 192) if F == 'Fq' else 7):
+            if v >= 2 ** (8 * nb): continue
+            hx = le(v, nb)
+            if build == 'ark':
+                cases.append((f'{f}.from_bigint:{hx}', ('some ' + hx) if v < p_ else 'none', f'{F}::from_bigint({v})'))
+                cases.append((f'{f}.deser:{hx}', ('ok ' + hx) if v < p_ else 'err InvalidData', f'{F}::deserialize_compressed of {v}'))
+                if v < p_:
+                    cases.append((f'{f}.push:{hx} {f}.into_bigint', hx, f'{F}::into_bigint({v})')); cases.append((f'{f}.push:{hx} {f}.ser', hx, f'{F}::serialize_compressed({v})'))
+                    cases.append((f'{f}.push:{hx} {f}.into_biguint', le(v, (max(v.bit_length(), 1) + 7) // 8) if v else '00', f'{F} -> BigUint')); cases.append((f'{f}.from_biguint:{hx}', f'{f}:{hx}', f'BigUint -> {F}'))
+                    cases.append((f'{f}.from_str:{v}', 'ok ' + hx, f'{F}::from_str')); cases.append((f'{f}.push:{hx} {f}.display', str(v) if v else '', f'{F} Display'))
+        cs = [(0, 1), (1, 0), (5, 5), (p_ - 1, 1), (2 ** 64, 2 ** 64 - 1), (2 ** 128, 2 ** 64), (3 << 200, 4 << 192)]
+        for a, b in cs:
+            cases.append((f'{f}.push:{le(a, nb)} {f}.push:{le(b, nb)} {f}.cmp', 'Less' if a < b else ('Equal' if a == b else 'Greater'), f'{F}: cmp({a}, {b})'))
+    for v in (0, 1, Q - 1, Q, Q + 1, R - 1, R, R + 1, 2 ** 253, 2 ** 256 - 1, 2 ** 252):
+        if v >= 2 ** 256: continue
+        b = le(v, 32)
+        cases.append((f'checked:{b}', ('ok:' + b if v < Q else 'err') + ' ' + ('ok:' + b if v < R else 'err'), f'Fq/Fr::from_bytes_checked({v})'))
+    PPm = FIELDS['Fp']
+    for v in (0, 1, PPm - 1, PPm, PPm + 1, 2 ** 384 - 1, 2 ** 377):
+        b = le(v, 48); cases.append((f'checked:{b}', 'ok:' + b if v < PPm else 'err', f'Fp::from_bytes_checked({v})'))
+    for F, f in (('Fq', 'q'), ('Fr', 'r'), ('Fp', 'p')):
+        nb = 48 if F == 'Fp' else 32
+        for v in (0, 1, 2 ** 28, 2 ** 32 - 1, 2 ** 32, 2 ** 63, 2 ** 64 - 1):
+            cases.append((f'{f}.from_u64:{le(v, 8)}', f'{f}:{le(v, nb)}', f'{F}::from({v}u64)'))
+        for v in (0, 2 ** 64, 2 ** 92 + 2 ** 28, 2 ** 128 - 1):
+            cases.append((f'{f}.from_u128:{le(v, 16)}', f'{f}:{le(v % FIELDS[F], nb)}', f'{F}::from({v}u128)'))
+    return cases
+
 BATTERIES = {
+    'C10': lambda b: field_cases(b),
+    'C11': lambda b: conversion_cases(b),
+    'C12': lambda b: decode_cases(b) + encode_cases(b)[:300] + elligator_cases(b) + group_cases(b)[:200] + smul_cases(b)[:150] + coherence_cases(b)[:150] + const_cases(b) + field_cases(b)[:400] + conversion_cases(b),
+    'C01': lambda b: roundtrip_cases(b),
+    'C09': sqrt_cases,
     'C06': lambda b: constructor_cases(b),
     'C05': lambda b: smul_cases(b),
     'C08': lambda b: coherence_cases(b),
     'C17': lambda b: const_cases(b) + const_semantic_cases(b),
-    'C02': lambda b: decode_cases(b) + funnel_cases(b),
+    'C02': lambda b: decode_cases(b) + funnel_cases(b) + sqrt_cases(b)[:60],
     'C03': lambda b: encode_cases(b),
     'C04': lambda b: group_cases(b),
-    'C07': lambda b: elligator_cases(b),
+    'C07': lambda b, obs=(): elligator_cases(b) + sqrt_cases(b, obs),
 }
 
 def reproduce(prop, obs):
@@ -309,7 +448,8 @@ def reproduce(prop, obs):
         if bat is None: err = 'no replay battery for this property'
         else:
             try:
-                cases = bat(build)
+                import inspect
+                cases = bat(build, os_) if len(inspect.signature(bat).parameters) > 1 else bat(build)
                 for profile in ('dev', 'release') if common.tier() == 'thorough' else ('dev',):
                     hit = run_cases(build, cases, profile)
                     if hit: break
